@@ -165,6 +165,9 @@ fn parse_iso8601_inner(s: &[u8]) -> IsoVerdict {
         Some(b'T') => {
             p.i += 1;
         }
+        // ISO 8601 designators are capital letters (the property: "with a Z ... zone"; RFC 3339's "may be lower case" is
+        // a different profile): a lower-case letter in that place is an extra character, not a designator
+        Some(b't') => return Reject("lower-case t is not the time designator"),
         _ => return Unspecified(SHAPE, None),
     }
     let Some(hour) = p.digits(2) else { return Unspecified(SHAPE, None) };
@@ -221,7 +224,7 @@ fn parse_iso8601_inner(s: &[u8]) -> IsoVerdict {
             let v = zh as i64 * 3600 + zm as i64 * 60;
             offset_secs = if sign == b'-' { -v } else { v };
         }
-        Some(b'z') => return Unspecified("lower-case z", None),
+        Some(b'z') => return Reject("lower-case z is not a zone designator"),
         _ => return Reject("missing zone designator"),
     }
     if p.i != s.len() {
